@@ -366,8 +366,15 @@ class CallMixin(object):
                 return []
         caller_env = st.env
         caller_stack = st.stack
-        if entry:
-            s0 = State(env, st.cons, st.preds, st.heap, caller_stack, st.notes)
+        flat = (not entry) and f.qname in getattr(self, "flat_callees", ())
+        if flat:
+            sub.depth = ctx.depth        # same partitioning discipline as the frame it extends
+        if entry or flat:
+            # flat: a helper analysed in the caller's own frame of facts (no projection, no
+            # memoisation, nothing dropped at return), so that states inside the helper extend
+            # the caller's constraint set - used where paths are related through that inclusion
+            frame0 = caller_stack + ((f.qname, ctx.module, getattr(node, "lineno", 0)),) if flat else caller_stack
+            s0 = State(env, st.cons, st.preds, st.heap, frame0, st.notes)
             if f.qname in self.watch_entries:
                 self.watch_entries[f.qname].append(s0)
             self.active.append(f.qname)
